@@ -71,14 +71,14 @@ func (s *capSink) settle() []rt.M {
 		n := len(s.snapshot())
 		if n == last {
 			stable++
-			if stable >= 4 {
+			if stable >= 8 {
 				break
 			}
 		} else {
 			stable = 0
 		}
 		last = n
-		time.Sleep(2 * time.Millisecond)
+		time.Sleep(4 * time.Millisecond)
 	}
 	return s.snapshot()
 }
@@ -178,8 +178,12 @@ func runMW(v mwVec, limit int64) rt.M {
 		}
 		switch v.Act {
 		case "ok":
-			w.WriteHeader(v.St)
+			// every other 200 is an implicit one (no WriteHeader call)
+			if v.St != 200 || v.ID%2 == 0 {
+				w.WriteHeader(v.St)
+			}
 			io.WriteString(w, "HANDLER-BODY")
+		case "silent":
 		case "panic":
 			panic("x01 handler panic")
 		case "writepanic":
@@ -259,7 +263,13 @@ func runMW(v mwVec, limit int64) rt.M {
 	case <-time.After(5 * time.Second):
 		out["handler_never_ran"] = true
 	}
-	logs := sink.settle()
+	// without a stall everything ran synchronously inside ServeHTTP; after a stall
+	// the released handler's goroutine may still be on its way out through the
+	// middlewares inside Timeout
+	logs := sink.snapshot()
+	if stalls {
+		logs = sink.settle()
+	}
 	w.mu.Lock()
 	code, bodyStr := w.code, w.body.String()
 	w.mu.Unlock()
